@@ -15,7 +15,9 @@
     microseconds since the start of the case), the reservation period is [N].
     What the chain and the pool do (blocks, pool admission and eviction, what is in
     the pool after a restart) is input: [Mine], [PoolAdd], [PoolRemove], [Restart]
-    carry the observed change, the wallet's reaction to it is computed. *)
+    carry the observed change, the wallet's reaction to it is computed.  [Mine] is the
+    wallet store applying one block (UpdateChainState); a block that has reached the
+    manager but not yet the store shows only through [PoolRemove] (sync-lag window). *)
 From stdpp Require Import gmap.
 From Coq Require Import ZArith NArith List.
 Import ListNotations.
@@ -36,7 +38,8 @@ Record ptx := mk_ptx { p_id : N; p_v2 : bool; p_ins : list N; p_outs : list pout
 
 Record state := mk_state {
   utxos : gmap N (Z * N);  (* store.UnspentSiacoinElements: id -> (value, maturity height) *)
-  tip_h : N;               (* height of the store's tip (= the manager's: the wallet is synced) *)
+  tip_h : N;               (* height of the store's tip; the manager may be ahead (its blocks
+                              then show only as pool changes until [Mine] applies them) *)
   now : N;                 (* time.Now() *)
   locked : gmap N N;       (* sw.locked: id -> expiry  (wallet.go:113-118) *)
   pool : list ptx;         (* the manager's pool, in order of admission *)
@@ -206,7 +209,9 @@ Record rtx := mk_rtx { r_ins : list N; r_nout : Z; r_change : Z; r_fee : Z }.
 
 Inductive res :=
 | RErr                                       (* the call returned an error *)
-| RFund (sel : list N) (change : Z)          (* inputs appended, change output (0: none) *)
+| RFund (sel : list N) (change : Z) (basis : N)
+    (* inputs appended, change output (0: none), height of the returned basis: the tip of
+       the store snapshot the inputs and their proofs were taken from *)
 | RRedist (txs : list rtx)                   (* Redistribute: one entry per transaction *)
 | RSplit (r : option (N * list Z))           (* SplitUTXO: None = nothing to do *)
 | RUnit.
@@ -216,12 +221,12 @@ Inductive res :=
     outputs are candidates) *)
 Definition fund (s : state) (v2 : bool) (amount : Z) (existing : N) (unc : bool)
   : state * res :=
-  if (amount =? 0)%Z then (s, RFund [] 0%Z) else
+  if (amount =? 0)%Z then (s, RFund [] 0%Z (tip_h s)) else
   match select_utxos s amount existing unc v2 with
   | None => (s, RErr)
   | Some (sel, sum) =>
       (lock_utxos s (map u_id sel),
-       RFund (map u_id sel) (if (sum >? amount)%Z then (sum - amount)%Z else 0%Z))
+       RFund (map u_id sel) (if (sum >? amount)%Z then (sum - amount)%Z else 0%Z) (tip_h s))
   end.
 
 (** ** Redistribute (662-798) *)
@@ -342,7 +347,8 @@ Definition split (s : state) (n min_amount fee : Z) (txid : N) (new_ids : list N
 (** ** The three views *)
 Record bal := mk_bal { b_spendable : Z; b_confirmed : Z; b_unconfirmed : Z; b_immature : Z }.
 
-(** Balance (165-231) *)
+(** Balance (165-231, with the fourth repair: maturity is judged at the store's tip, the
+    snapshot the outputs come from, not at the manager's height) *)
 Definition bal_add (s : state) (ps : gset N) (b : bal) (u : utxo) : bal :=
   if (tip_h s <? u_mat u)%N then
     mk_bal (b_spendable b) (b_confirmed b) (b_unconfirmed b) (b_immature b + u_val u)%Z
@@ -397,7 +403,7 @@ Record ftx := mk_ftx { f_ins : list N; f_exp : N }.
 
 Definition res_txs (r : res) : list (list N) :=
   match r with
-  | RFund sel _ => [sel]
+  | RFund sel _ _ => [sel]
   | RRedist txs => map r_ins txs
   | RSplit (Some (i, _)) => [[i]]
   | _ => []
